@@ -119,11 +119,18 @@ def run_batch(prop: str, engine: str, tier: str, base_seed: int, plan: dict) -> 
     workers = int(os.environ.get("VERIF_WORKERS", plan.get("workers", min(16, os.cpu_count() or 4))))
     per_task = int(plan.get("per_task_s", 120))
     budget = float(plan.get("wall_s", 80))
+    plain = [(engine, base_seed * 1_000_003 + i, tier, False, per_task, None) for i in range(int(plan["runs"]))]
+    faulty = [(engine, base_seed * 1_000_003 + 500_000 + i, tier, True, per_task, None) for i in range(int(plan.get("fault_runs", 0)))]
+    # interleave the two configurations in proportion, so that a wall-clock limit cuts both alike
     tasks = []
-    for i in range(int(plan["runs"])):
-        tasks.append((engine, base_seed * 1_000_003 + i, tier, False, per_task, None))
-    for i in range(int(plan.get("fault_runs", 0))):
-        tasks.append((engine, base_seed * 1_000_003 + 500_000 + i, tier, True, per_task, None))
+    i = j = 0
+    while i < len(plain) or j < len(faulty):
+        if j >= len(faulty) or (i < len(plain) and i * max(len(faulty), 1) <= j * max(len(plain), 1)):
+            tasks.append(plain[i])
+            i += 1
+        else:
+            tasks.append(faulty[j])
+            j += 1
 
     results = []
     harness_errors = []
@@ -215,6 +222,7 @@ def run_batch(prop: str, engine: str, tier: str, base_seed: int, plan: dict) -> 
     status = Counter(r["status"] for r in results)
     probes, faults_fired, discards = Counter(), Counter(), Counter()
     states, bigrams, nontrivial_hashes = set(), set(), set()
+    reached = {}
     ops_total = checks_total = 0
     vtime = phys = 0.0
     samples = []
@@ -224,6 +232,9 @@ def run_batch(prop: str, engine: str, tier: str, base_seed: int, plan: dict) -> 
         faults_fired.update(st.get("faults", {}))
         states.update(st.get("states", []))
         bigrams.update(st.get("bigrams", []))
+        for k, v in st.get("sets", {}).items():
+            reached.setdefault(k, set()).update(v)
+        discards.update(st.get("run_discards", {}))
         ops_total += st.get("ops", 0)
         checks_total += st.get("checks", 0)
         vtime += st.get("vtime", 0.0)
@@ -321,6 +332,7 @@ def run_batch(prop: str, engine: str, tier: str, base_seed: int, plan: dict) -> 
         "probes": dict(probes),
         "distinct_abstract_states": len(states),
         "distinct_op_bigrams": len(bigrams),
+        "distinct_reached": {k: len(v) for k, v in sorted(reached.items())},
         "discards": dict(discards),
         "known_findings_hit": dict(known_hits),
         "real_vs_stub": REAL_STUB,
